@@ -148,6 +148,13 @@ type Scenario struct {
 	FilterOut string     `json:"filterOut"` // none | accept | reject
 	Bad       string     `json:"bad"`       // malformed-option injection: "" | nilarg | nilvalue | nonfunc | nilconv
 	Family    string     `json:"family"`
+	ITok      []int      `json:"itoks"`  // token of supplied value j (filled with 1..n when absent)
+	Phase0    int        `json:"phase0"` // phase number of the primary operation (1 unless part of a history)
+	Carry     bool       `json:"carry"`  // step of a history on shared objects: earlier executions stay visible
+	// NoFollowUp: redefine mode without the follow-up call of the redefined function
+	NoFollowUp bool `json:"noFollowUp"`
+	// TwinOf = 1: this history repeats the previous one without its Redefine steps
+	TwinOf int `json:"twinOf"`
 }
 
 func (s *Scenario) Normalize() {
@@ -183,5 +190,14 @@ func (s *Scenario) Normalize() {
 	}
 	if s.FilterIn == nil {
 		s.FilterIn = []string{}
+	}
+	if len(s.ITok) != len(s.Inputs) || s.ITok == nil {
+		s.ITok = make([]int, len(s.Inputs))
+		for j := range s.ITok {
+			s.ITok[j] = j + 1
+		}
+	}
+	if s.Phase0 == 0 {
+		s.Phase0 = 1
 	}
 }
